@@ -98,18 +98,20 @@ Qed.
 Section BuilderProofs.
   Variable mstate : Type.
   Variable prngkey : Z -> key.
-  Variable jitter_apply : list key -> mstate -> mstate.
-  Local Notation bld := (builder mstate).
-  Local Notation build := (b_build mstate jitter_apply).
-  Local Notation steps := (b_steps mstate prngkey jitter_apply).
-  Local Notation script := (b_script mstate prngkey jitter_apply).
+  Variable jdict : Type.
+  Variable jn : jdict -> nat.
+  Variable jitter_apply : jdict -> list key -> mstate -> mstate.
+  Local Notation bld := (builder mstate jdict).
+  Local Notation build := (b_build mstate jdict jn jitter_apply).
+  Local Notation steps := (b_steps mstate prngkey jdict jn jitter_apply).
+  Local Notation script := (b_script mstate prngkey jdict jn jitter_apply).
 
   (* build() as written only reads the builder *)
   Theorem build_pure_keeps_builder (b b' : bld) e :
     build BuildPure b = Some (e, b') -> b' = b.
   Proof.
-    unfold b_build. destruct (bd_states _ b) as [st|]; [|discriminate].
-    destruct (negb (length st =? bd_nch _ b)); [discriminate|].
+    unfold b_build. destruct (bd_states _ _ b) as [st|]; [|discriminate].
+    destruct (negb (length st =? bd_nch _ _ b)); [discriminate|].
     intros H. injection H as _ <-. reflexivity.
   Qed.
 
@@ -123,7 +125,7 @@ Section BuilderProofs.
     = match steps sv bv st ops1 with Some st' => steps sv bv st' ops2 | None => None end.
   Proof.
     induction ops1 as [|o r IH]; intros st ops2; cbn [app b_steps]; [reflexivity|].
-    destruct (b_step _ _ _ sv bv st o) as [st'|]; [apply IH| reflexivity].
+    destruct (b_step _ _ _ _ _ sv bv st o) as [st'|]; [apply IH| reflexivity].
   Qed.
 
   Theorem script_build_twice sv s nch ops e :
@@ -131,14 +133,14 @@ Section BuilderProofs.
     script sv BuildPure s nch (ops ++ [BBuild; BBuild]) = Some e.
   Proof.
     unfold b_script. rewrite !steps_app.
-    destruct (steps sv BuildPure (b_new mstate prngkey s nch, None) ops) as [[b last]|]; [|discriminate].
+    destruct (steps sv BuildPure (b_new mstate prngkey jdict s nch, None) ops) as [[b last]|]; [|discriminate].
     cbn [b_steps b_step]. destruct (build BuildPure b) as [[ei b']|] eqn:E; [|discriminate].
     cbn [b_steps b_step]. rewrite (build_idempotent _ _ _ E). intros H. exact H.
   Qed.
 
   (* set_engine_seed: an integer is the corresponding PRNG key *)
   Theorem set_engine_seed_int_equiv z (b : bld) :
-    b_set_engine_seed mstate prngkey (IntSeed z) b = b_set_engine_seed mstate prngkey (KeySeed (prngkey z)) b.
+    b_set_engine_seed mstate prngkey jdict (IntSeed z) b = b_set_engine_seed mstate prngkey jdict (KeySeed (prngkey z)) b.
   Proof. reflexivity. Qed.
 
   Theorem script_engine_seed_int_equiv sv bv s nch pre post z :
@@ -148,67 +150,97 @@ Section BuilderProofs.
 
   (* handing the constructor's own engine key back changes nothing *)
   Theorem set_engine_seed_default_noop s nch :
-    b_set_engine_seed mstate prngkey (KeySeed (b_engine (seed_root prngkey s))) (b_new mstate prngkey s nch)
-    = b_new mstate prngkey s nch.
+    b_set_engine_seed mstate prngkey jdict (KeySeed (b_engine (seed_root prngkey s))) (b_new mstate prngkey jdict s nch)
+    = b_new mstate prngkey jdict s nch.
   Proof. reflexivity. Qed.
 
   (* the engine key is the given key itself (not a child of it), split once per chain *)
   Theorem set_engine_seed_seeds bv s (b b' : bld) e :
-    build bv (b_set_engine_seed mstate prngkey s b) = Some (e, b') ->
-    ei_seeds e = map (fun c => split (seed_root prngkey s) (bd_nch _ b) c) (seq 0 (bd_nch _ b)).
+    build bv (b_set_engine_seed mstate prngkey jdict s b) = Some (e, b') ->
+    ei_seeds e = map (fun c => split (seed_root prngkey s) (bd_nch _ _ b) c) (seq 0 (bd_nch _ _ b)).
   Proof.
     unfold b_build, b_set_engine_seed. cbn [bd_states bd_nch bd_engine bd_jitter bd_jit].
-    destruct (bd_states _ b) as [st|]; [|discriminate].
-    destruct (negb (length st =? bd_nch _ b)); [discriminate|].
+    destruct (bd_states _ _ b) as [st|]; [|discriminate].
+    destruct (negb (length st =? bd_nch _ _ b)); [discriminate|].
     intros H. injection H as <- _. reflexivity.
   Qed.
 
   (* builder reuse: set_initial_values replaces whatever states the builder held (from an earlier call or,
      in the writing variant, from an earlier build), so the next build depends on the new argument only *)
   Theorem build_after_set_initial_values sv bv a (b1 b2 b1' b2' : bld) :
-    bd_engine _ b1 = bd_engine _ b2 -> bd_jitter _ b1 = bd_jitter _ b2 ->
-    bd_nch _ b1 = bd_nch _ b2 -> bd_jit _ b1 = bd_jit _ b2 ->
-    b_set_initial_values mstate sv a b1 = Some b1' -> b_set_initial_values mstate sv a b2 = Some b2' ->
+    bd_engine _ _ b1 = bd_engine _ _ b2 -> bd_jitter _ _ b1 = bd_jitter _ _ b2 ->
+    bd_nch _ _ b1 = bd_nch _ _ b2 -> bd_jit _ _ b1 = bd_jit _ _ b2 ->
+    b_set_initial_values mstate jdict sv a b1 = Some b1' -> b_set_initial_values mstate jdict sv a b2 = Some b2' ->
     option_map fst (build bv b1') = option_map fst (build bv b2').
   Proof.
     intros He Hj Hn Hf. unfold b_set_initial_values. rewrite Hn.
-    destruct (set_initial_values mstate sv (bd_nch _ b2) a) as [st|]; [|discriminate].
+    destruct (set_initial_values mstate sv (bd_nch _ _ b2) a) as [st|]; [|discriminate].
     intros H1 H2. injection H1 as <-. injection H2 as <-.
     unfold b_build. cbn [bd_states bd_nch bd_engine bd_jitter bd_jit]. rewrite He, Hj, Hf.
-    destruct (negb (length st =? bd_nch _ b2)); [reflexivity|].
-    destruct bv, (bd_jit _ b2); reflexivity.
+    destruct (negb (length st =? bd_nch _ _ b2)); [reflexivity|].
+    destruct bv, (bd_jit _ _ b2); reflexivity.
   Qed.
 
   Theorem first_state_after_build sv bv a (b b1 b2 : bld) e c i0 :
-    b_set_initial_values mstate sv a b = Some b1 -> build bv b1 = Some (e, b2) ->
-    init_of mstate (bd_nch _ b) a c = Some i0 ->
+    b_set_initial_values mstate jdict sv a b = Some b1 -> build bv b1 = Some (e, b2) ->
+    init_of mstate (bd_nch _ _ b) a c = Some i0 ->
     nth_error (ei_states e) c
-    = Some (jitter_chain_g mstate jitter_apply (bd_jitter _ b) (bd_nch _ b) (bd_jit _ b) c i0).
+    = Some (jitter_chain_g mstate jdict jn jitter_apply (bd_jitter _ _ b) (bd_nch _ _ b) (bd_jit _ _ b) c i0).
   Proof.
-    unfold b_set_initial_values. destruct (set_initial_values mstate sv (bd_nch _ b) a) as [st|] eqn:ES; [|discriminate].
+    unfold b_set_initial_values. destruct (set_initial_values mstate sv (bd_nch _ _ b) a) as [st|] eqn:ES; [|discriminate].
     intros H. injection H as <-. unfold b_build. cbn [bd_states bd_nch bd_engine bd_jitter bd_jit].
-    destruct (length st =? bd_nch _ b) eqn:EL; cbn [negb]; [|discriminate]. apply Nat.eqb_eq in EL.
+    destruct (length st =? bd_nch _ _ b) eqn:EL; cbn [negb]; [|discriminate]. apply Nat.eqb_eq in EL.
     intros H. injection H as <- _. cbn [ei_states]. intros Hi.
     assert (En : nth_error st c = Some i0).
     { destruct a as [s0|l]; cbn [set_initial_values init_of] in *.
-      - injection ES as <-. destruct (c <? bd_nch _ b) eqn:Ec; [|discriminate]. injection Hi as <-.
-        apply Nat.ltb_lt in Ec. clear EL. revert c Ec. induction (bd_nch _ b) as [|n IH]; intros c Ec; [lia|].
+      - injection ES as <-. destruct (c <? bd_nch _ _ b) eqn:Ec; [|discriminate]. injection Hi as <-.
+        apply Nat.ltb_lt in Ec. clear EL. revert c Ec. induction (bd_nch _ _ b) as [|n IH]; intros c Ec; [lia|].
         destruct c; cbn; [reflexivity| apply IH; lia].
       - destruct sv; [discriminate|]. injection ES as <-. exact Hi. }
-    assert (Hcomb : nth_error (combine (seq 0 (bd_nch _ b)) st) c = Some (c, i0)).
+    assert (Hcomb : nth_error (combine (seq 0 (bd_nch _ _ b)) st) c = Some (c, i0)).
     { rewrite <- EL. apply (nth_error_combine_seq st 0 c i0 En). }
     rewrite (map_nth_error _ c _ Hcomb). reflexivity.
+  Qed.
+  (* set_jitter_fns: the last call wins; None clears the jitter functions set before *)
+  Theorem set_jitter_fns_last_wins j1 j2 (b : bld) :
+    b_set_jitter_fns mstate jdict j2 (b_set_jitter_fns mstate jdict j1 b) = b_set_jitter_fns mstate jdict j2 b.
+  Proof. reflexivity. Qed.
+
+  Theorem script_jitter_last_wins sv bv s nch pre post j1 j2 :
+    script sv bv s nch (pre ++ BSetJitter j1 :: BSetJitter j2 :: post)
+    = script sv bv s nch (pre ++ BSetJitter j2 :: post).
+  Proof.
+    unfold b_script. rewrite !steps_app.
+    destruct (steps sv bv (b_new mstate prngkey jdict s nch, None) pre) as [[b last]|]; reflexivity.
+  Qed.
+
+  Lemma map_snd_combine_seq {X} : forall n a (l : list X), length l = n -> map snd (combine (seq a n) l) = l.
+  Proof.
+    induction n as [|n IH]; intros a l H; destruct l as [|x r]; cbn in *; try discriminate; [reflexivity|].
+    f_equal. apply IH. lia.
+  Qed.
+
+  Theorem set_jitter_fns_none_clears bv (b b' : bld) st e :
+    bd_states _ _ b = Some st ->
+    build bv (b_set_jitter_fns mstate jdict None b) = Some (e, b') ->
+    ei_states e = st /\ bd_jit _ _ b' = None.
+  Proof.
+    intros Hs. unfold b_build, b_set_jitter_fns. cbn [bd_states bd_nch bd_engine bd_jitter bd_jit]. rewrite Hs.
+    destruct (length st =? bd_nch _ _ b) eqn:EL; cbn [negb]; [|discriminate]. apply Nat.eqb_eq in EL.
+    intros H. destruct bv; injection H as <- <-; cbn [ei_states bd_jit jitter_chain_g]; split; try reflexivity.
+    - rewrite <- (map_snd_combine_seq (bd_nch _ _ b) 0 st EL) at 2. apply map_ext. intros [c ms]. reflexivity.
+    - rewrite <- (map_snd_combine_seq (bd_nch _ _ b) 0 st EL) at 2. apply map_ext. intros [c ms]. reflexivity.
   Qed.
 End BuilderProofs.
 
 (* the writing variant is not idempotent: the second engine starts from initial + 2 x jitter *)
 Example build_writes_back_refuted :
-  exists (b b1 b2 : builder Z) e1 e2,
-    b_build Z (fun ks ms => (ms + Z.of_nat (length ks) + 1)%Z) BuildWritesJitter b = Some (e1, b1)
-    /\ b_build Z (fun ks ms => (ms + Z.of_nat (length ks) + 1)%Z) BuildWritesJitter b1 = Some (e2, b2)
+  exists (b b1 b2 : builder Z nat) e1 e2,
+    b_build Z nat (fun n => n) (fun _ ks ms => (ms + Z.of_nat (length ks) + 1)%Z) BuildWritesJitter b = Some (e1, b1)
+    /\ b_build Z nat (fun n => n) (fun _ ks ms => (ms + Z.of_nat (length ks) + 1)%Z) BuildWritesJitter b1 = Some (e2, b2)
     /\ ei_seeds e1 = ei_seeds e2 /\ ei_states e1 = [12; 22]%Z /\ ei_states e2 = [14; 24]%Z.
 Proof.
-  exists (mkB Z [(3, 1)] [(3, 2)] 2 (Some [10; 20]%Z) (Some 1)).
+  exists (mkB Z nat [(3, 1)] [(3, 2)] 2 (Some [10; 20]%Z) (Some 1)).
   eexists. eexists. eexists. eexists.
   split; [vm_compute; reflexivity|]. split; [vm_compute; reflexivity|].
   split; [reflexivity|]. split; reflexivity.
@@ -218,7 +250,7 @@ Qed.
 (* default builder + Engine(...) = the batched run of Keys.v (so all its theorems apply)         *)
 (* ------------------------------------------------------------------------------------------ *)
 Theorem W_built_default_is_batched : forall (w : world) (prngkey : Z -> key) v root nch jit a ei,
-  b_script (w_mstate w) prngkey (w_jitter_apply w) v BuildPure (KeySeed root) nch
+  b_script (w_mstate w) prngkey nat (fun n => n) (fun _ => w_jitter_apply w) v BuildPure (KeySeed root) nch
            [BSetInit a; BSetJitter jit; BBuild] = Some ei -> 
   W_run_built w ei = W_run_batched w v root nch jit a.
 Proof.
@@ -236,22 +268,23 @@ Proof.
 Qed.
 
 (* the combined statements used by Properties/C10.v *)
-Theorem engine_seed_int_equiv_full : forall mstate (prngkey : Z -> key) jitter_apply z (b : builder mstate),
-  b_set_engine_seed mstate prngkey (IntSeed z) b = b_set_engine_seed mstate prngkey (KeySeed (prngkey z)) b
+Theorem engine_seed_int_equiv_full : forall mstate (prngkey : Z -> key) jdict jn jitter_apply z (b : builder mstate jdict),
+  b_set_engine_seed mstate prngkey jdict (IntSeed z) b = b_set_engine_seed mstate prngkey jdict (KeySeed (prngkey z)) b
   /\ forall sv bv s nch pre post,
-       b_script mstate prngkey jitter_apply sv bv s nch (pre ++ BSetEngineSeed (IntSeed z) :: post)
-       = b_script mstate prngkey jitter_apply sv bv s nch (pre ++ BSetEngineSeed (KeySeed (prngkey z)) :: post).
+       b_script mstate prngkey jdict jn jitter_apply sv bv s nch (pre ++ BSetEngineSeed (IntSeed z) :: post)
+       = b_script mstate prngkey jdict jn jitter_apply sv bv s nch (pre ++ BSetEngineSeed (KeySeed (prngkey z)) :: post).
 Proof.
-  intros mstate prngkey jitter_apply z b. split.
-  - exact (set_engine_seed_int_equiv mstate prngkey z b).
-  - intros sv bv s nch pre post. exact (script_engine_seed_int_equiv mstate prngkey jitter_apply sv bv s nch pre post z).
+  intros mstate prngkey jdict jn jitter_apply z b. split.
+  - exact (set_engine_seed_int_equiv mstate prngkey jdict z b).
+  - intros sv bv s nch pre post.
+    exact (script_engine_seed_int_equiv mstate prngkey jdict jn jitter_apply sv bv s nch pre post z).
 Qed.
 
-Theorem build_idempotent_full : forall mstate jitter_apply (b b' : builder mstate) e,
-  b_build mstate jitter_apply BuildPure b = Some (e, b') ->
-  b' = b /\ b_build mstate jitter_apply BuildPure b' = Some (e, b').
+Theorem build_idempotent_full : forall mstate jdict jn jitter_apply (b b' : builder mstate jdict) e,
+  b_build mstate jdict jn jitter_apply BuildPure b = Some (e, b') ->
+  b' = b /\ b_build mstate jdict jn jitter_apply BuildPure b' = Some (e, b').
 Proof.
-  intros mstate jitter_apply b b' e H. split.
-  - exact (build_pure_keeps_builder mstate jitter_apply b b' e H).
-  - exact (build_idempotent mstate jitter_apply b b' e H).
+  intros mstate jdict jn jitter_apply b b' e H. split.
+  - exact (build_pure_keeps_builder mstate jdict jn jitter_apply b b' e H).
+  - exact (build_idempotent mstate jdict jn jitter_apply b b' e H).
 Qed.
